@@ -1169,6 +1169,8 @@ class C16(ProverCheck):
             budget[0] -= (m - 1).bit_length()
             return ["int", m]
         if u < 0.75:
+            if rng.random() < 0.06:
+                return ["list", []] if rng.random() < 0.5 else ["rep", self.gen_schema(rng, depth - 1, budget), 0]
             items = [self.gen_schema(rng, depth - 1, budget) for _ in range(rng.randrange(1, 4))]
             if rng.random() < 0.3:
                 items.insert(rng.randrange(1, len(items) + 1), copy.deepcopy(items[0]))     # the same field twice
